@@ -120,6 +120,10 @@ def obligations():
               'check_chain_root_for_headers, check_pow_for_headers, check_continuous_headers, verify_mmr_proof; no path continues from an '
               'Err edge (incl. verify_tau, verify_total_difficulty) to a mutator',
               r'send_last_state_proof\.rs:\d+:\d+: \d+:\d+>::execute\(', mir_slsp, src_rel=SLSP),
+        KModelOb('O1.9-pow-and-continuity', 'lastn:powcont', 'pow_and_continuity', 'SendLastStateProofProcess::execute from "Check POW for all headers" to "Verify MMR proof" (real text, anchored on its comments): the PoW of EVERY header '
+                 'of the response is checked; the reorg section (when present) and the last-N section are each checked for continuity over exactly their headers - also when sampled headers are present; a failing check is the answer',
+                 lambda repo: common.status_code(repo) + common.peer_state_types(repo) + common.pow_continuity_slice(repo), '<=2 reorg, <=1 sampled, 1..2 last-N headers with arbitrary PoW verdicts; verify_tau / check_continuous_headers -> recording models with arbitrary verdicts',
+                 cuts=CUTS, timeout=900, mem_gb=10, min_covers=2, weight=3, rustflags='--cfg pow_cont'),
         MirOb('O1.8-new-last-state-verified', 'LightClientProtocol::process_last_state (a NEW last state announced inside a proof / blocks-proof / transactions-proof reply): the peer\'s last state is '
               'replaced only after check_verifiable_header (PoW, chain-root commitment, overflow guard) returned Ok - the proof handler itself never checks the PoW of the last header',
               r'light_client/mod\.rs:\d+:\d+: \d+:\d+>::process_last_state\(', mir_process_last_state, src_rel=LCMOD),
